@@ -27,6 +27,10 @@ def analyse(prop: str, src: str, overlay=None):
     prog = Program(src, overlay)
     ctx = Ctx(prog, prop)
     mod.run(ctx)
+    if ctx.deferred and (overlay is None or not ctx.findings):
+        # the real tree must be analysable in full; an edited tree (self-validation) may lose a clause as long as
+        # the edit is reported by another one
+        raise AnalysisError(ctx.deferred[0])
     if overlay is None:
         # floors guard the real tree against vacuous passes; overlay runs (self-validation) edit the
         # code on purpose and are judged by the findings they add or do not add
